@@ -31,7 +31,7 @@ def parseDesc (s : String) : Option Desc :=
   match s.splitOn "/" with
   | [id, g, k, a, v] => some ⟨id, if g == "-" then [] else g.toList, k.toList.headD 'e', a, v, "s0"⟩
   | [id, g, k, a, v, sch] =>
-    if sch == "s1" || sch == "s2" || sch == "s3" then some ⟨id, if g == "-" then [] else g.toList, k.toList.headD 'e', a, v, sch⟩
+    if ["s1", "s2", "s3", "f1", "f2", "f3"].contains sch then some ⟨id, if g == "-" then [] else g.toList, k.toList.headD 'e', a, v, sch⟩
     else none
   | _ => none
 
@@ -113,7 +113,13 @@ def filterPasses (kind : Char) (val v : String) : Bool :=
 /-- `filterSchema`: at least one schema of the list is satisfied and every REQUIRED one is — whatever their order.
     Degree credentials are the ones whose id starts with `g`. -/
 def schemaOk (d : Desc) (c : Cred) : Bool :=
-  if d.schema == "s1" || d.schema == "s2" then c.id.startsWith "g" else true
+  if d.schema == "s1" || d.schema == "s2" then c.id.startsWith "g"
+  -- `filterFormat`: f1 = JWT credentials signed with EdDSA (ids `j…`), f2 = credentials with an Ed25519Signature2018
+  -- linked data proof (ids `l…`), f3 = JWT credentials signed with ES256 (there are none)
+  else if d.schema == "f1" then c.id.startsWith "j"
+  else if d.schema == "f2" then c.id.startsWith "l"
+  else if d.schema == "f3" then false
+  else true
 
 def credMatches (d : Desc) (c : Cred) : Bool :=
   schemaOk d c &&
